@@ -285,6 +285,27 @@ def main():
             cr.note("TSan build failed: %s" % str(e)[:200])
         cr.coverage["tsan_cli_runs"] = n_tsan
 
+        # ---- 2c. compressors are pure functions of their input: every history of <= 2 (thorough 3) blocks x compressor configuration
+        # (each worker owns a private compressor copy; a result that depended on what the instance compressed before would make the image depend on -j)
+        v_as = build.variant("asan")
+        libs, _ = build.lib_objects(v_as, os.path.join(sd, "libs_asan"))
+        chx = os.path.join(sd, "comp_hist")
+        build._cc(["clang"] + v_as.cflags + build.base_cppflags(v_as) + ["-I" + build.REPO, os.path.join(VERIF, "engines/hist/comp_hist.c"), "-o", chx] + v_as.ldflags +
+                  [libs["libsquashfs_la"], libs["libutil_a"], libs["libcompat_a"]] + ["-lz", "-llzma", "-llz4", "-lzstd", "-lpthread"])
+        rch = run_tool([chx, "2" if cr.quick else "3"], timeout=1800)
+        try:
+            jch = json.loads(rch.out.decode().strip().splitlines()[-1])
+        except Exception:
+            jch = None
+        if rch.crashed or jch is None:
+            cr.violation("C02|compressor-history|" + (rch.crash_fingerprint() if rch.crashed else "no-result"), "compressor history harness died rc=%d\n%s" % (rch.rc, rch.err.decode("latin1")[-2000:]),
+                         files={"case.json": json.dumps(dict(kind="compressor-history"))})
+        else:
+            cr.coverage["compressor_histories"] = {k_: jch[k_] for k_ in ("configurations", "sequences", "do_block_calls", "skipped")}
+            if jch["mismatches"]:
+                cr.violation("C02|compressor-history|" + jch["first"].split(":")[0], "%d block sequences give a result that depends on what the compressor instance processed before; first: %s" % (
+                    jch["mismatches"], jch["first"]), files={"case.json": json.dumps(dict(kind="compressor-history", first=jch["first"]))})
+
         # ---- 3. environment: full product of clock x TZ x locale x umask x cwd
         n_env = 0
         wd = os.path.join(sd, "cfg_rich")
